@@ -361,6 +361,12 @@ func (p *c17) Run(tier string, seed int64, idx int) core.CaseResult {
 				try(c2, "corrupted_paths")
 			}
 		}
+		// a token repeated: the offending element is then string-equal to the element before it
+		for k := range w {
+			c := append(append(append([]string{}, w[:k+1]...), w[k]), w[k+1:]...)
+			try(c, "corrupted_paths")
+			res.Ev("paths_with_a_repeated_token", 1)
+		}
 		// bad values: replace value tokens by values the type rejects
 		try(append(append([]string{}, w...), "extra"), "corrupted_paths")
 		try(append(append([]string{}, w...), "extra", "more"), "corrupted_paths")
